@@ -4,8 +4,9 @@ translate   translate/dryrun_gates.py -> Gen/DryRunGates.lean (per operation: th
             a dry run skips them; the literal `true` the Search arm passes for dry_run)
             translate/scan_shape.py -> Gen/ScanShape.lean (global sort key, stable sort, ordered collect)
 prove       RModel.Props.C14 (order_independent for every permutation of the file list; stats_order_independent;
-            readonly / plan_writes_permitted over the effect programs generated from the gate table; witness for the
-            un-gated lock of `rename --dry-run`)
+            readonly / readonly_full / C14_full_holds / plan_writes_permitted over the effect programs generated from the
+            gate table; the
+            repaired un-gated lock of `rename --dry-run` as a before-fix theorem)
 oracle      generated trees (1..40 entries) x argument sets (plan, plan --dry-run, search, rename --dry-run,
             replace --dry-run, with style / include / exclude options) x RAYON_NUM_THREADS x repeats, every run under
             the shim:
@@ -68,8 +69,8 @@ def expected_gitignore(old):
 
 
 def classify_writes(events, op, dry, plan_path, autoinit_first):
-    """returns (bad events, finding events) for the successful mutating calls of one run"""
-    bad, finding = [], []
+    """returns the successful mutating calls of one run that are outside the permitted set"""
+    bad = []
     for e in events:
         if e.seq is None or not e.ok:
             continue
@@ -83,17 +84,13 @@ def classify_writes(events, op, dry, plan_path, autoinit_first):
             if (e.path == ".renamify" and e.op == "mkdir") or (e.path == LOCK and e.op in ("openw", "write", "unlink")) \
                     or (e.path == plan_path and e.op in ("openw", "write")):
                 continue
-        if dry and op == "rename" and ((e.path == ".renamify" and e.op == "mkdir") or
-                                       (e.path == LOCK and e.op in ("openw", "write", "unlink"))):
-            finding.append(e)
-            continue
         bad.append(e)
-    return bad, finding
+    return bad
 
 
 def run_case(tree, name, args, dry, op, thread_counts, repeats, autoinit, preexisting):
     """one (tree, argument set): all thread counts x repeats in one directory.  Returns a result dict."""
-    res = {"name": name, "args": args, "runs": 0, "problems": [], "finding": None, "outputs": [], "traces": [],
+    res = {"name": name, "args": args, "runs": 0, "problems": [], "outputs": [], "traces": [],
            "failed": None}
     extra = [] if autoinit else ["--no-auto-init"]
     if autoinit == "yes":
@@ -119,7 +116,7 @@ def run_case(tree, name, args, dry, op, thread_counts, repeats, autoinit, preexi
                 tag = {"threads": t, "repeat": rep}
                 failed = r.rc != 0
                 writes_ignore = autoinit in ("yes", "repo") and first and not preexisting
-                bad, fnd = classify_writes(r.events, op, dry, ".renamify/plan.json", writes_ignore)
+                bad = classify_writes(r.events, op, dry, ".renamify/plan.json", writes_ignore)
                 if bad:
                     res["problems"].append({**tag, "what": "write outside the permitted set", "events": [e.raw for e in bad[:6]]})
                     return res
@@ -131,15 +128,11 @@ def run_case(tree, name, args, dry, op, thread_counts, repeats, autoinit, preexi
                     allowed |= {".renamify", ".renamify/plan.json"}
                 diff = [k for k in sorted(set(before) | set(after)) if before.get(k) != after.get(k)]
                 extra_diff = [k for k in diff if k not in allowed]
-                if fnd or extra_diff:
-                    if op == "rename" and dry and set(extra_diff) <= {".renamify"} and \
-                            (not extra_diff or after.get(".renamify", ("?",))[0] == "d"):
-                        res["finding"] = res["finding"] or {**tag, "events": [e.raw.split(" => ")[0].split(" ", 2)[2] for e in fnd], "new_paths": extra_diff}
-                    else:
-                        res["problems"].append({**tag, "what": "tree changed", "paths": extra_diff,
-                                                "diff": common.snap_diff({k: before[k] for k in before if k in extra_diff},
-                                                                         {k: after[k] for k in after if k in extra_diff})})
-                        return res
+                if extra_diff:
+                    res["problems"].append({**tag, "what": "tree changed", "paths": extra_diff,
+                                            "diff": common.snap_diff({k: before[k] for k in before if k in extra_diff},
+                                                                     {k: after[k] for k in after if k in extra_diff})})
+                    return res
                 if writes_ignore:
                     old = initial.get(".gitignore", ("f", 0, b""))[2].decode()
                     got = after.get(".gitignore", ("f", 0, b""))[2].decode()
@@ -279,7 +272,11 @@ def run(ctx):
                 ctx.notes.append(f"{' '.join(args)}: {res['failed']}")
         if res["problems"]:
             p = res["problems"][0]
-            ctx.violation("input", case, expected="only permitted writes; tree byte-identical", observed=p)
+            note = None
+            if op == "rename" and dry and any(".renamify" in str(x) for x in (p.get("events", []) + p.get("paths", []))):
+                note = "the defect repaired by 055e350 is back: rename --dry-run takes the lock / creates .renamify/"
+            ctx.violation("input", case, expected="only permitted writes; tree byte-identical", observed=p, note=note,
+                          model_prediction="C14.readonly_full: a dry run writes the transient probe only")
             return
         outs = res["outputs"]
         nontrivial = False
@@ -296,15 +293,10 @@ def run(ctx):
                               observed={"run": tag, "output": _first_diff(outs[0][1], o)[1]},
                               note="same tree, same arguments, different report")
                 return
-        if res["finding"]:
-            if not ctx.known("rename_dryrun_creates_renamify_dir"):
-                ctx.violation("input", case, expected="a dry run writes nothing", observed=res["finding"],
-                              model_prediction="rename_operation acquires the lock before the dry_run gate")
-                return
         # correspondence: trace vs model program
         probe = not (op == "replace")
         for i, (tag, wrote_ignore, trace) in enumerate(res["traces"]):
-            exists = pre or (i > 0 and op == "rename")     # rename --dry-run leaves .renamify/ behind for the next run
+            exists = pre
             reqs.append(model_request(op, dry, exists, wrote_ignore, probe))
             expect.append((case, tag, " ".join(":".join(x) for x in trace) or "-"))
     if results:
@@ -378,10 +370,7 @@ def replay(ctx, path):
     dry = "--dry-run" in args or op == "search"
     res = run_case(tree, "replay", args, dry, op, case.get("threads", [1, 8]), case.get("repeats", 2),
                    case.get("auto_init"), case.get("preexisting_renamify", False))
-    print(json.dumps({"runs": res["runs"], "problems": res["problems"], "finding": res["finding"]}, indent=1, default=str))
+    print(json.dumps({"runs": res["runs"], "problems": res["problems"]}, indent=1, default=str))
     differ = [tag for tag, o in res["outputs"][1:] if o != res["outputs"][0][1]]
     if res["problems"] or differ:
         ctx.violation("input", case, expected=obj.get("expected"), observed=res["problems"] or {"runs_that_differ": differ})
-    elif res["finding"]:
-        if not ctx.known("rename_dryrun_creates_renamify_dir"):
-            ctx.violation("input", case, expected="a dry run writes nothing", observed=res["finding"])
